@@ -111,7 +111,10 @@ def run(tier):
     for c in cases:
         if c.get("no_nl"):
             c.pop("nl_bytes", None)
-    runs = drv.run_cases(exe, PID, cases, timeout=30)
+    # thorough: the same scenarios through the ASan/UBSan build of the driver (a memory error is
+    # exit 99/98 = crash, which the Driver spec never allows)
+    runexe = targets.get("h_drv_asan") if tier == "thorough" else exe
+    runs = drv.run_cases(runexe, PID, cases, timeout=60 if tier == "thorough" else 30)
     recs = []
     for c, r in zip(cases, runs):
         s = r["sol"]
